@@ -211,10 +211,15 @@ def r2(F, R):
             ok = False
             for g in A.guards_of(ex, site):
                 d = g.cond_def()
+                sl = None
                 if d and d[0] == "call" and callee_is(d[2], r"Option::<.*>::is_some$") and g.polarity() is True:
                     sl = A.slice_back(ex, [d[2]["args"][0]])
-                    if any(re.search(r"FuturesUnordered<", aw.fut_type) and aw.poll_site in sl.sites for aw in A.awaits(ex)):
-                        ok = True
+                elif d and d[0] == "discr" and d[2] == "std::option::Option" and g.variants() == {"Some"}:
+                    # `if let Some(..) = finished` / a tuple pattern `(Some(()), ..)`
+                    cp = A.canon_place(ex, d[1])
+                    sl = A.slice_back(ex, [{"k": "copy", "pl": cp}])
+                if sl is not None and any(re.search(r"FuturesUnordered<", aw.fut_type) and aw.poll_site in sl.sites for aw in A.awaits(ex)):
+                    ok = True
             R.check(ok, "release-iff-completion", site, "guarded by `a completion was received`",
                     "the slot is released without a completion having been received (or on the wrong edge)")
             R.check(not ex.site_reaches(site, site, stop=[s_get]), "release-once-per-turn", site, "", "slots can be released more than once per loop turn")
